@@ -139,7 +139,9 @@ func (w *WaitGroup) Wait() {
 		w.real.Wait()
 		return
 	}
-	call(kern.OpWGWait, &w.id, 0, 0)
+	if r := call(kern.OpWGWait, &w.id, 0, 0); r.Status == kern.StPanicWGReuse {
+		panic("sync: WaitGroup is reused before previous Wait has returned")
+	}
 	if kern.RaceLane && !kern.Aborting() {
 		w.real.Wait()
 	}
